@@ -2079,12 +2079,16 @@ def find_operating_point(
     # Decide what variables to minimize
     if all([x is None for x in (iu, iy, ix, idx)]):
         # Special cases: either inputs or outputs are constrained
+        # Desired value of the update map (default: equilibrium point)
+        dxdes = np.zeros(nstates) if dx0 is None \
+            else np.array(dx0, dtype=float)
+
         if y0 is None:
             # Take u0 as fixed and minimize over x
             if sys.isdtime(strict=True):
-                def state_rhs(z): return sys._rhs(t, z, u0) - z
+                def state_rhs(z): return sys._rhs(t, z, u0) - dxdes - z
             else:
-                def state_rhs(z): return sys._rhs(t, z, u0)
+                def state_rhs(z): return sys._rhs(t, z, u0) - dxdes
 
             result = root(state_rhs, x0, **root_kwargs)
             z = (result.x, u0, sys._out(t, result.x, u0))
@@ -2095,13 +2099,14 @@ def find_operating_point(
                 def rootfun(z):
                     x, u = np.split(z, [nstates])
                     return np.concatenate(
-                        (sys._rhs(t, x, u) - x, sys._out(t, x, u) - y0),
-                        axis=0)
+                        (sys._rhs(t, x, u) - dxdes - x,
+                         sys._out(t, x, u) - y0), axis=0)
             else:
                 def rootfun(z):
                     x, u = np.split(z, [nstates])
                     return np.concatenate(
-                        (sys._rhs(t, x, u), sys._out(t, x, u) - y0), axis=0)
+                        (sys._rhs(t, x, u) - dxdes,
+                         sys._out(t, x, u) - y0), axis=0)
 
             # Find roots with (x, u) as free variables
             z0 = np.concatenate((x0, u0), axis=0)
